@@ -623,6 +623,13 @@ def shape_scripts():
         (["src := [1, 2]"], "fn f(a, a) { print(a); }\nf(src..)", "name bound twice"),
         (["src := [1, 2]"], "f := fn (a, a) { print(a); }\nf(src..)", "name bound twice"),
         (["src := [1, 2]"], "for [a, a] in src { print(a); }", "name bound twice"),
+        # `..name` collects in a PATTERN; among the arguments of a call it is not a form of the language (a spread is `name..`)
+        (["src := [1, 2]", "fn f(..r) { return r; }"], "print(f(1, ..src))", "collect marker in an argument list"),
+        (["src := [1, 2]", "fn f(..r) { return r; }"], "print(f(..src))", "collect marker in an argument list"),
+        (["src := [1, 2]"], "print(..src)", "collect marker in an argument list"),
+        (["src := [1, 2]", "o := {\"m\": fn (..r) { return r; }}"], "print(o.m(0, ..src))", "collect marker in an argument list"),
+        (["src := [1, 2]", "fn f(..r) { return r; }"], "print(f(src.., ..src))", "collect marker in an argument list"),
+        (["src := [1, 2]", "fn f(..r) { return r; }"], "print([f(..src)])", "collect marker in an argument list"),
     ]
     out = []
     for setup, stmt, why in cases:
@@ -735,6 +742,39 @@ def call_scripts(rng, thorough):
                     sc.tags = ["call", f"arity{arity}{'+rest' if rest else ''}", f"args{n}",
                                "".join("p" if k == "plain" else "s%d" % len(x) for k, x in split), "ok" if ok else "err"]
                     out.append(sc.source({"tags": sc.tags}))
+    # a spread hands over the ITEMS, whatever they are: function values that were read from objects arrive exactly as
+    # `xs[0], xs[1], …` would hand them over (callable with the same `this`), in calls and in list literals
+    pre = ('fn who() { return this.tag; }\na := {"tag": "A", "who": who}\nb := {"tag": "B", "who": who}\n'
+           'c := {"tag": "C", "mk": fn () { return fn () { return this.tag; }; }}\n')
+    items = [("a.who", "A"), ('b["who"]', "B"), ("c.mk()", "C"), ("a.who", "A")]
+    for n in range(1, 5):
+        for np, rest in ((n, False), (0, True), (1, True), (n - 1, True)):
+            if np < 0 or np > n or (not rest and np != n):
+                continue
+            params = [f"p{i}" for i in range(np)]
+            plist = ", ".join(params + (["..r"] if rest else []))
+            body = " ".join(f"print({p}());" for p in params) + (" for [i, g] in r { print(g()); };" if rest else "") + " return 0;"
+            for form in ("call-spread", "call-plain", "call-mixed", "list-spread", "list-of-spread-call"):
+                sc = L.Script()
+                sc.stmt(pre.rstrip("\n"))
+                sc.stmt(f"fn f({plist}) {{ {body} }}")
+                sc.stmt("xs := [" + ", ".join(t for t, _ in items[:n]) + "]")
+                if form == "call-spread":
+                    sc.stmt("f(xs..)")
+                elif form == "call-plain":
+                    sc.stmt("f(" + ", ".join(f"xs[{i}]" for i in range(n)) + ")")
+                elif form == "call-mixed":
+                    sc.stmt("f(" + ", ".join(["xs[0]"] + (["xs[1:].."] if n > 1 else [])) + ")")
+                elif form == "list-spread":
+                    sc.stmt("ys := [xs..]")
+                    sc.stmt("f(ys..)")
+                else:
+                    sc.stmt("ys := [[xs..]..]")
+                    sc.stmt("f(" + ", ".join(f"ys[{i}]" for i in range(n)) + ")")
+                for _, tag in items[:n]:
+                    sc.expect_text(tag)
+                sc.tags = ["call", "spread-of-methods", form, n, np, rest, "ok"]
+                out.append(sc.source({"tags": sc.tags}))
     # the rest parameter is a fresh list: writing into it leaves the spread source alone
     for n in range(1, 4):
         for np in range(0, n + 1):
